@@ -129,6 +129,26 @@ def _unescape(s):
     return s.replace('\\"', '"').replace("\\\\", "\\")
 
 
+def _run_jvm(cmd, out_p, **kw):
+    """Runs a TLC command writing to out_p. A JVM that was killed or never started (no TLC banner in the output:
+    out of memory on a busy host) is not a verdict about anything: it is started again, at most twice."""
+    for attempt in range(3):
+        with open(out_p, "w") as out:
+            r = subprocess.run(cmd, stdout=out, stderr=subprocess.STDOUT, **kw)
+        if r.returncode == 0:
+            return r
+        try:
+            head = open(out_p, errors="replace").read(4000)
+        except OSError:
+            head = ""
+        if r.returncode in (-9, 137, -15, 143) or "TLC2 Version" not in head:
+            log(f"[jvm] exited {r.returncode} without a TLC verdict (attempt {attempt + 1}); starting it again")
+            time.sleep(3)
+            continue
+        return r
+    return r
+
+
 def tlc_check(spec, cfg, work, workers=8, timeout=600, coverage=True, want_emit=False, simulate=None, sim_seed=0):
     """Model-checks `cfg`. Returns dict(states, distinct, violated, coverage, cases, wall)."""
     spec_p = os.path.join(SPECS, spec)
@@ -141,13 +161,11 @@ def tlc_check(spec, cfg, work, workers=8, timeout=600, coverage=True, want_emit=
         extra += ["-simulate", simulate, "-seed", str(int(sim_seed))]   # reproducible sample for a given VERIF_SEED
     out_p = os.path.join(work, os.path.splitext(cfg)[0] + ".out")
     t0 = time.time()
-    with open(out_p, "w") as out:
-        try:
-            r = subprocess.run(_tlc_cmd(spec_p, cfg_p, workers, md, extra), cwd=work, stdout=out,
-                               stderr=subprocess.STDOUT, timeout=timeout)
-            rc = r.returncode
-        except subprocess.TimeoutExpired:
-            raise ToolError(f"TLC timed out after {timeout}s on {cfg}")
+    try:
+        r = _run_jvm(_tlc_cmd(spec_p, cfg_p, workers, md, extra), out_p, cwd=work, timeout=timeout)
+        rc = r.returncode
+    except subprocess.TimeoutExpired:
+        raise ToolError(f"TLC timed out after {timeout}s on {cfg}")
     wall = time.time() - t0
     shutil.rmtree(md, ignore_errors=True)
     res = dict(cfg=cfg, states=0, distinct=0, violated=None, coverage={}, cases=[], wall=round(wall, 1), rc=rc)
@@ -200,13 +218,11 @@ def tlc_validate(trace_spec, trace_cfg, trace_path, work, timeout=900, xmx="6g",
     jopts = ["-Xss1g", "-Dtlc2.tool.queue.IStateQueue=StateDeque"]
     out_p = trace_path + ".tlc.out"
     t0 = time.time()
-    with open(out_p, "w") as out:
-        try:
-            r = subprocess.run(_tlc_cmd(os.path.join(SPECS, trace_spec), os.path.join(SPECS, trace_cfg), 1, md,
-                                        xmx=xmx, jopts=jopts), cwd=work, env=env, stdout=out,
-                               stderr=subprocess.STDOUT, timeout=timeout)
-        except subprocess.TimeoutExpired:
-            raise ToolError(f"TLC trace validation timed out after {timeout}s on {trace_path}")
+    try:
+        r = _run_jvm(_tlc_cmd(os.path.join(SPECS, trace_spec), os.path.join(SPECS, trace_cfg), 1, md,
+                              xmx=xmx, jopts=jopts), out_p, cwd=work, env=env, timeout=timeout)
+    except subprocess.TimeoutExpired:
+        raise ToolError(f"TLC trace validation timed out after {timeout}s on {trace_path}")
     wall = time.time() - t0
     shutil.rmtree(md, ignore_errors=True)
     res = dict(viols=None, stats={}, lines=0, wall=round(wall, 1), tags={})
